@@ -61,19 +61,27 @@ def FT.shift (k : Nat) : FT → FT
   | .done l => .done (l + k)
   | r => r
 
+/-- the frame header at the front of a buffer: flag, announced length, what follows
+(`None` when fewer than `GRPC_HEADER_SIZE` bytes are there) -/
+def hdr5 : Bytes → Option (UInt8 × Nat × Bytes)
+  | h :: a :: b :: c :: d :: rest => some (h, readU32 a b c d, rest)
+  | _ => none
+
 /-- `find_trailers` on `&buf[len..]`, result relative to that position (the code accumulates
 `len` going forward; here it is added on the way back, and `len > buf.len()` is the same test
 as `rest.length < msg_len`).  With `fixed`, a trailers frame is only reported once all of it
 (header and block) is in the buffer.  Fuel bounds the number of frames walked over. -/
 def scan (fixed : Bool) : Nat → Bytes → FT
   | 0, _ => .bad
-  | f + 1, h :: a :: b :: c :: d :: rest =>
-    if h = 128 then
-      if fixed && rest.length < readU32 a b c d then .incomplete else .trailer 0
-    else if !(h = 0 || h = 1) then .bad
-    else if rest.length < readU32 a b c d then .incomplete
-    else (scan fixed f (rest.drop (readU32 a b c d))).shift (readU32 a b c d + 5)
-  | _ + 1, _ => .done 0
+  | f + 1, buf =>
+    match hdr5 buf with
+    | none => .done 0
+    | some (h, n, rest) =>
+      if h = 128 then
+        if fixed && rest.length < n then .incomplete else .trailer 0
+      else if !(h = 0 || h = 1) then .bad
+      else if rest.length < n then .incomplete
+      else (scan fixed f (rest.drop n)).shift (n + 5)
 
 def findTrailers (fixed : Bool) (buf : Bytes) : FT := scan fixed (buf.length + 1) buf
 
@@ -225,32 +233,39 @@ inductive Step where
   | stop (o : List Out)        -- a terminal result (`err`, or trailers/`None` at the end)
   deriving Repr
 
+def mergeOpt (cur : Option (List Pair)) : Option (List Pair) → Option (List Pair)
+  | some t => mergeTrailers cur t
+  | none => cur
+
+/-- `FindTrailers::Trailer(len)`: `copy_to_bytes(len)`, then exactly the trailers frame is
+split off and decoded; the messages in front (if any) are returned, else `continue`. -/
+def onTrailer (st : St) (len : Nat) : Step :=
+  match hdr5 (st.decoded.drop len) with
+  | none => .stop [.err]   -- unreachable: `Trailer` is only reported with ≥ 5 bytes there
+  | some (_, n, _) =>
+    match decodeTrailersFrame true ((st.decoded.drop len).take (5 + n)) with
+    | none => .stop [.err]
+    | some t? =>
+      let st' : St := { decoded := (st.decoded.drop len).drop (5 + n),
+                        trailers := mergeOpt st.trailers t? }
+      if len > 0 then .emit (.data (st.decoded.take len)) st' else .again st'
+
+/-- `FindTrailers::Done(0)`: nothing complete is buffered. -/
+def onExhausted (eof : Bool) (st : St) : Step :=
+  if !eof then .again st
+  else if !st.decoded.isEmpty then .stop [.err]
+  else match st.trailers with
+    | some t => .emit (.trailers t) { st with trailers := none }
+    | none => .stop [.eos]
+
 /-- The `match find_trailers(..)` of the client loop; `eof` = the inner body has ended. -/
-def decide (eof : Bool) (st : St) : Step :=
+def afterPoll (eof : Bool) (st : St) : Step :=
   match findTrailers true st.decoded with
   | .bad => .stop [.err]
-  | .trailer len =>
-    -- `copy_to_bytes(len)`, then exactly the trailers frame is split off and decoded
-    match st.decoded.drop len with
-    | _ :: a :: b :: c :: d :: rest =>
-      let n := readU32 a b c d
-      match decodeTrailersFrame true ((st.decoded.drop len).take (5 + n)) with
-      | none => .stop [.err]
-      | some t? =>
-        let tr := match t? with
-          | some t => mergeTrailers st.trailers t
-          | none => st.trailers
-        let st' : St := { decoded := rest.drop n, trailers := tr }
-        if len > 0 then .emit (.data (st.decoded.take len)) st' else .again st'
-    | _ => .stop [.err]   -- unreachable: `trailer` is only reported with ≥ 5 bytes there
+  | .trailer len => onTrailer st len
   | .incomplete => if eof then .stop [.err] else .again st
   | .done len =>
-    if len = 0 then
-      if !eof then .again st
-      else if !st.decoded.isEmpty then .stop [.err]
-      else match st.trailers with
-        | some t => .emit (.trailers t) { st with trailers := none }
-        | none => .stop [.eos]
+    if len = 0 then onExhausted eof st
     else .emit (.data (st.decoded.take len)) { st with decoded := st.decoded.drop len }
 
 /-- After the inner body has ended (`inner_done`): the loop only works on what is buffered.
@@ -258,13 +273,13 @@ Fuel: every `emit`/`again` here consumes buffered bytes or the stored trailers. 
 def drain : Nat → St → List Out
   | 0, _ => [.err]
   | f + 1, st =>
-    match decide true st with
+    match afterPoll true st with
     | .stop os => os
     | .emit o st' => o :: drain f st'
     | .again st' => drain f st'
 
 /-- The consumer's view: frames until the first `None` / error.  One inner event is taken per
-pass of the loop (`poll_decode`), then one `decide`; after the inner body has ended it is
+pass of the loop (`poll_decode`), then one `afterPoll`; after the inner body has ended it is
 never polled again. -/
 def run (st : St) : List BodyEv → List Out
   | [] => drain (st.decoded.length + 3) st
@@ -272,7 +287,7 @@ def run (st : St) : List BodyEv → List Out
   | .err :: _ => [.err]
   | .trailers t :: r => run { st with trailers := mergeTrailers st.trailers t } r
   | .data b :: r =>
-    match decide false { st with decoded := st.decoded ++ b } with
+    match afterPoll false { st with decoded := st.decoded ++ b } with
     | .stop os => os
     | .emit o st' => o :: run st' r
     | .again st' => run st' r
